@@ -1,6 +1,6 @@
 (* C03 — native EDS serialisation is lossless (token level). *)
 From Coq Require Import List NArith ZArith Bool Relations.
-From PyD Require Import Base.Str Base.Dec Model.Mrs Model.Iso Model.SimpleMrs Model.EdsNative Proofs.SimpleMrsP Proofs.EdsNativeP.
+From PyD Require Import Base.Str Base.Dec Model.Mrs Model.Iso Model.SimpleMrs Model.EdsNative Proofs.SimpleMrsP Proofs.EdsNativeP Model.MrsJson Model.EdsJson Proofs.EdsJsonP.
 Import ListNotations.
 
 Theorem C03_unescape_escape : forall s, unescape (escape s) = s.
@@ -55,3 +55,17 @@ Theorem C03_reencode_stable : forall frag disc p l g,
   enc_gen frag disc p l (proj_veds p l g) = enc_gen frag disc p l g.
 Proof. exact enc_gen_stable. Qed.
 Print Assumptions C03_reencode_stable.
+
+(* EDS-JSON at the level of the JSON value: reading back the dictionary that
+   to_dict writes gives the same top and the same nodes (type kept even when
+   properties are suppressed), re-ordered by character span *)
+Theorem C03_json_from_to_dict : forall p l g, NoDup (map v_id (ve_nodes g)) ->
+  e_from_dict (e_to_dict p l g) =
+  Some {| ve_top := ve_top g; ve_nodes := sort_nodes (map (proj_jnode p l) (ve_nodes g)); ve_ident := None |}.
+Proof. exact e_from_to_dict. Qed.
+Print Assumptions C03_json_from_to_dict.
+
+Theorem C03_json_up_to_node_order : forall p l g,
+  Permutation.Permutation (sort_nodes (map (proj_jnode p l) (ve_nodes g))) (map (proj_jnode p l) (ve_nodes g)).
+Proof. exact e_json_nodes_permutation. Qed.
+Print Assumptions C03_json_up_to_node_order.
